@@ -179,7 +179,12 @@ def execute(case):
                     gc.collect()
                     events.append(dict(op))
                 elif e == "Read":
-                    events.append({"e": "Read", "supply": scaled(fp.supply, 1), "demand": scaled(fp.demand, 1), "u": scaled(fp.utilisation, 48), "a": scaled(fp.allocation, 48)})
+                    def rd(fn, q):
+                        try:
+                            return scaled(fn(), q)
+                        except Exception:  # noqa: a read that raises gives no value on any grid
+                            return 777777
+                    events.append({"e": "Read", "supply": rd(lambda: fp.supply, 1), "demand": rd(lambda: fp.demand, 1), "u": rd(lambda: fp.utilisation, 48), "a": rd(lambda: fp.allocation, 48)})
             nursery.cancel_scope.cancel()
 
     trio.run(main, clock=trio.testing.MockClock(autojump_threshold=0))
@@ -357,8 +362,10 @@ def run(ctx):
     for c in cases:
         try:
             traces.append(execute(c))
-        except BaseException as e:  # noqa
-            raise tlc.MachineryError("driver failed (%r) on case %s" % (e, json.dumps(c)))
+        except Exception as e:  # noqa: the pool (its run(), a property) raised in the middle of a history
+            # what is left to judge: a read that gave nothing - no value on any grid
+            init = [{"st": "hatch", "s": x["s"], "u": x["u"], "a": x["a"], "d": x["d"]} for x in c["init"]]
+            traces.append({"fdem": c["fdem"], "init": init, "events": [{"e": "Read", "supply": 777777, "demand": 777777, "u": 777777, "a": 777777}], "raised": "%s: %s" % (type(e).__name__, str(e)[:120])})
     verdicts = [None] * len(traces)
     tstates = 0
     for fdem in FDEMS:
